@@ -435,6 +435,10 @@ bool vm_ffi_cop_start(VmState *vm, const NvmModule *module) {
     uint8_t *blob = nvm_serialize(module, &blob_size);
     if (!blob) return false;
 
+    /* A co-process that dies or closes its stdin must surface as a write error
+     * (EPIPE), not kill the VM with SIGPIPE. */
+    signal(SIGPIPE, SIG_IGN);
+
     /* Create pipes: parent writes to child stdin, reads from child stdout */
     int pipe_to_child[2];    /* parent writes [1], child reads [0] */
     int pipe_from_child[2];  /* child writes [1], parent reads [0] */
@@ -454,6 +458,7 @@ bool vm_ffi_cop_start(VmState *vm, const NvmModule *module) {
 
     if (pid == 0) {
         /* Child: set up stdin/stdout from pipes, exec nano_cop */
+        signal(SIGPIPE, SIG_DFL);
         close(pipe_to_child[1]);
         close(pipe_from_child[0]);
         dup2(pipe_to_child[0], STDIN_FILENO);
